@@ -97,6 +97,7 @@ let sc_forward (s : sc) (who : int) (toks : string list) : int =
 
 (* ---------------------------------------------------------------- mconnection cases *)
 type mc = {
+  mutable big : n option;           (* a trailing length prefix (KBIG) *)
   mutable maxp : int;
   mutable chans : chan list;        (* sender side *)
   mutable rchans : chan list;       (* receiver side *)
@@ -124,14 +125,14 @@ let () =
   let lines = ref (read_lines stdin) in
   let next () = match !lines with [] -> None | l :: t -> lines := t; Some (tokens l) in
   let s = ref (new_sc ()) in
-  let m = ref { maxp = 1024; chans = []; rchans = []; stream = []; sent = [] } in
+  let m = ref { big = None; maxp = 1024; chans = []; rchans = []; stream = []; sent = [] } in
   let rec loop () =
     match next () with
     | None -> ()
     | Some [] -> loop ()
     | Some ("CASE" :: id :: _) ->
       s := new_sc ();
-      m := { maxp = 1024; chans = []; rchans = []; stream = []; sent = [] };
+      m := { big = None; maxp = 1024; chans = []; rchans = []; stream = []; sent = [] };
       Printf.printf "CASE %s\n" id; loop ()
     (* ---- secret connection *)
     | Some ["INIT"; asend; arecv; bsend; brecv] ->
@@ -155,6 +156,19 @@ let () =
        | WOk k -> Printf.printf "W n=%d none\n" (int_of_nat k)
        | WPanic k -> Printf.printf "W n=%d panic\n" (int_of_nat k));
       loop ()
+    | Some ["WF"; who; hex; j] ->
+      (* Write whose underlying conn.Write fails at frame j of this call: every sealed frame,
+         the failing one included, is on the wire as far as the man in the middle is concerned *)
+      let w = int_of_string who in
+      let ((st, out), r) = write_f seal pad !s.conns.(w) (nlist_of_hex hex) (Some (nat_of_int (int_of_string j))) in
+      !s.conns.(w) <- st;
+      !s.pending.(w) <- !s.pending.(w) @ out;
+      !s.hist.(w) <- !s.hist.(w) @ out;
+      (match r with
+       | WFOk k -> Printf.printf "W n=%d none\n" (int_of_nat k)
+       | WFErr k -> Printf.printf "W n=%d err\n" (int_of_nat k)
+       | WFPanic k -> Printf.printf "W n=%d panic\n" (int_of_nat k));
+      loop ()
     | Some ("F" :: who :: toks) ->
       let added = sc_forward !s (int_of_string who) toks in
       Printf.printf "F %d\n" added; loop ()
@@ -176,6 +190,20 @@ let () =
       (match verify_auth (n_of_string ch) (n_of_string claimed) sg with
        | HOk r -> Printf.printf "H ok %s\n" (string_of_n r)
        | HFail -> print_string "H fail\n");
+      loop ()
+    (* ---- transport upgrade: identities are numbered, PubKeyToID is the identity map; the
+       challenge of the session is 1 and the far end either signs it (signer <> 0) or sends garbage *)
+    | Some ["T"; self; dialed; claimed; signer; info; valid; compat] ->
+      let sg = if signer = "0" then SigGarbage else SigOf (n_of_string signer, n_of_int 1) in
+      let d = if dialed = "0" then None else Some (n_of_string dialed) in
+      let ni = if info = "0" then None
+        else Some { ni_id = n_of_string info; ni_valid = (valid = "1"); ni_compat = (compat = "1") } in
+      (match upgrade (fun k -> k) (n_of_string self) d (n_of_int 1) (n_of_string claimed) sg ni with
+       | UpOk id -> Printf.printf "T ok %s\n" (string_of_n id)
+       | UpRej RejAuth -> print_string "T rej auth\n"
+       | UpRej RejInvalid -> print_string "T rej invalid\n"
+       | UpRej RejSelf -> print_string "T rej self\n"
+       | UpRej RejIncompat -> print_string "T rej incompat\n");
       loop ()
     (* ---- mconnection *)
     | Some ["MAXP"; v] -> !m.maxp <- int_of_string v; loop ()
@@ -207,6 +235,7 @@ let () =
       Printf.printf "Q qsize=%s cansend=%s\n" (string_of_z c.qsize) (b01 (can_send c)); loop ()
     | Some ["K"; ch; eof; hex] ->
       !m.stream <- PktMsg (z_of_string ch, eof = "1", nlist_of_hex hex) :: !m.stream; loop ()
+    | Some ["KBIG"; len] -> !m.big <- Some (n_of_string len); loop ()
     | Some ["KPING"] -> !m.stream <- PktPing :: !m.stream; loop ()
     | Some ["KPONG"] -> !m.stream <- PktPong :: !m.stream; loop ()
     | Some ["M"; idx; hex] ->
@@ -221,7 +250,9 @@ let () =
       Printf.printf "V ch=%s n=%d d=%s\n" (string_of_n c.desc.ch_id) (List.length ps) (packets_digest ps); loop ()
     | Some ["RX"] ->
       let maxsize = max_packet_msg_size (nat_of_int !m.maxp) in
-      let (evs, r) = recv_stream maxsize !m.rchans (List.rev !m.stream) in
+      let (evs, r) = match !m.big with
+        | None -> recv_stream maxsize !m.rchans (List.rev !m.stream)
+        | Some len -> recv_stream_then_len maxsize !m.rchans (List.rev !m.stream) len in
       List.iter (fun (Deliver (c, d)) ->
           Printf.printf "D ch=%s len=%d d=%s\n" (string_of_n c) (List.length d) (digest d)) evs;
       Printf.printf "X %s\n" (match r with None -> "eof" | Some e -> str_merr e);
